@@ -317,7 +317,7 @@ func runC08(rc *RunCtx) {
 	var cases []c08Case
 	rems := []string{"0", "1", "3", "10", "1000000000000000001"}
 	amts := []string{"0", "1", "3", "rem", "rem+1"}
-	priors := []string{"none"}
+	priors := []string{"none", "sent1"}
 	if rc.Thorough() {
 		rems = []string{"0", "1", "2", "3", "10", "100", "1000000000000000001", "999999999999999999999999"}
 		amts = []string{"-1", "0", "1", "2", "3", "rem/2", "rem-1", "rem", "rem+1"}
@@ -398,7 +398,7 @@ func runC08(rc *RunCtx) {
 	rc.Level = "exploration"
 	rc.Cov = map[string]interface{}{
 		"evaluations": int(st.cases), "distinct_nontrivial": int(st.withVestingPart),
-		"rule":          "full product: vesting type free {0,0.05,1/3,0.5,1} x lockup {0,5,10}s x vesting {0,5,10}s (plus 150y+150y, 292y+0, 0+292y) x pool remainder {0,1,3,10,1e18+1} x amount {0,1,3,rem,rem+1} x restart x block time {before, at, after the pool's lock end} (x recipient state {absent, base, vesting, blocked module, gov module} for one schedule), plus direct creation over coins x (start,end) x recipient state. The thorough tier widens every axis (free shares down to 1e-18 and up to 1-1e-18, periods {0,1,5,10,3600}, period units minute/hour/day, remainders up to 1e24-1, amounts {-1,0,1,2,3,rem/2,rem-1,rem,rem+1}, pools that already sent to another account). Each case is a distinct input; non-trivial = an account with a non-empty vesting part was created and its schedule compared behaviourally at 9 instants.",
+		"rule":          "full product: vesting type free {0,0.05,1/3,0.5,1} x lockup {0,5,10}s x vesting {0,5,10}s (plus 150y+150y, 292y+0, 0+292y) x pool remainder {0,1,3,10,1e18+1} x amount {0,1,3,rem,rem+1} x restart x block time {before, at, after the pool's lock end} (x recipient state {absent, base, vesting, blocked module, gov module} for one schedule) x {fresh pool, pool that already sent 1 to another new account}, plus direct creation over coins x (start,end) x recipient state. The thorough tier widens every axis (free shares down to 1e-18 and up to 1-1e-18, periods {0,1,5,10,3600}, period units minute/hour/day, remainders up to 1e24-1, amounts {-1,0,1,2,3,rem/2,rem-1,rem,rem+1}, pools that already sent to another account). Each case is a distinct input; non-trivial = an account with a non-empty vesting part was created and its schedule compared behaviourally at 9 instants.",
 		"vesting_types": len(c08Types(rc.Thorough())),
 		"samples":       samples, "accounts_created": int(st.created), "requests_rejected": int(st.rejected), "exhaustive": true,
 	}
